@@ -326,6 +326,8 @@ def check(prop, tier, seed):
         fails = [o for o in r["obligations"] if o["status"] == "failed"]
         confirmed_new = False
         for o in fails:
+            if confirmed_new and not o["known"]:
+                continue        # this instance already has a counter-model that fails on the real code: one replay is enough
             rep = {"property": prop, "contract": r["contract"], "binding": r["binding"], "obligation": o["name"],
                    "function": getattr(c, "func", None), "inputs": o["inputs"], "solver": o["solver"],
                    "solver_detail": o["detail"], "known_tag": o["known"],
